@@ -231,6 +231,17 @@ def check_expr(st, out):
         return 'pickle round trip fails with %s for %s' % (type(e).__name__, r)
     if not ops_equal(tuple(get_ops(x)), tuple(get_ops(z))) or get_ops(x)[0] is not get_ops(z)[0] or repr(z) != r:
         return 'pickle round trip changes %s into %r' % (r, z)
+    # equality takes the root into account: the same steps under another root are a different value
+    for other in ('T', 'S', 'A'):
+        if other != root and all(o['op'] in ('.', '[', 'P') for o in ops):
+            try:
+                w = build_expr(other, ops, heap)
+            except (TypeError, glom.BadSpec):
+                continue
+            if isinstance(x, Path) and isinstance(w, Path) and (x == w or not (x != w)):
+                return '%s == %s although their roots differ' % (r, safe_repr(w))
+    if isinstance(x, Path) and not (x == build_expr(root, ops, heap)):
+        return '%s is not equal to a Path built from the same steps' % r
     if root == 'T':
         modelled = not _has(ops, lambda o, ae: o is not None and o['op'] == '.' and o['arg']['s'].startswith('__'))
         for j, tgt in enumerate(PROBE_TARGETS):
